@@ -6,8 +6,10 @@ import sys
 import time
 
 ROOT = os.path.dirname(os.path.dirname(os.path.abspath(__file__)))
-EVIDENCE = os.path.join(ROOT, 'evidence')
-REPLAYS = os.path.join(ROOT, 'replays')
+# (VERIF_EVIDENCE_DIR: runs against a mutated copy of the repository keep their evidence and replay files apart)
+_OUT = os.environ.get('VERIF_EVIDENCE_DIR')
+EVIDENCE = os.path.join(_OUT, 'evidence') if _OUT else os.path.join(ROOT, 'evidence')
+REPLAYS = os.path.join(_OUT, 'replays') if _OUT else os.path.join(ROOT, 'replays')
 KNOWN = os.path.join(ROOT, 'known_findings.json')
 
 ASSUMPTIONS = [
